@@ -214,6 +214,14 @@ impl<'h> It<'h> {
             It::Pos(f) => PositionProvider::set_offset(f, o),
         }
     }
+    /// The consuming `with_offset` applied in place (`it = it.with_offset(o)`); the wrapper with
+    /// positions has no such method and uses `set_offset`.
+    pub fn with_offset_mid(&mut self, o: usize) {
+        match self {
+            It::Plain(f) => replace_with(f, |x| x.with_offset(o)),
+            It::Pos(f) => PositionProvider::set_offset(f, o),
+        }
+    }
     pub fn set_mode(&mut self, m: usize) {
         match self {
             It::Plain(f) => f.set_mode(m),
@@ -244,6 +252,25 @@ impl<'h> It<'h> {
             It::Plain(f) => Some(f),
             It::Pos(_) => None,
         }
+    }
+}
+
+/// `*slot = f(*slot)` for a type without a cheap placeholder. A panic inside `f` would leave the
+/// slot logically moved-out, so it aborts the process instead (reported as a crash of the system
+/// under test by the parent).
+pub fn replace_with<T>(slot: &mut T, f: impl FnOnce(T) -> T) {
+    struct AbortOnUnwind;
+    impl Drop for AbortOnUnwind {
+        fn drop(&mut self) {
+            std::process::abort();
+        }
+    }
+    unsafe {
+        let guard = AbortOnUnwind;
+        let old = std::ptr::read(slot);
+        let new = f(old);
+        std::ptr::write(slot, new);
+        std::mem::forget(guard);
     }
 }
 
